@@ -248,6 +248,23 @@ WordBits == {8, 16, 32, 64, 128}
 LenWhere == {"var", "smember", "param"}
 LenWhat == {"const", "var", "param", "consti32"}
 DupWhat == {"fn", "const", "param", "struct", "structword", "member"}
+\* WHERE the two names stand does not matter to the rule (docs/errors.md E421-E426: "two functions ...", "another
+\* parameter or constant in scope" -- constants are in scope throughout the module); it is a dimension of Gen:
+\*   fn      which of the two declarations has a body / is extern / is pub
+\*   const   adjacent, with another declaration in between, the second one pub
+\*   param   the other name is a parameter (of a head, a function with a body, an extern head, a pub function; the
+\*           pair is the first two or the last two parameters) or a constant declared before / after the function
+\*   struct  struct + struct, word + struct; structword = struct + word (the documented example)
+\*   member  of a struct / of a word / the first and the last of three
+DupVariants(w) ==
+    CASE w = "fn" -> {"head+head", "body+head", "head+body", "body+body", "extern+head", "pub+head"}
+      [] w = "const" -> {"adjacent", "apart", "pub"}
+      [] w = "param" -> {"param@head", "param@body", "param@extern", "param@pub", "param@head-first",
+                         "const-before@head", "const-after@head", "const-before@body", "const-after@body",
+                         "const-before@extern", "const-after@extern", "const-after@pub"}
+      [] w = "struct" -> {"struct+struct", "word+struct", "word+word"}
+      [] w = "structword" -> {"struct+word"}
+      [] w = "member" -> {"struct", "word", "first-last"}
 
 Init == /\ fam = "none" /\ ty = <<>> /\ pos = "none" /\ aux = <<>> /\ phase = "family"
 
@@ -260,7 +277,7 @@ ChooseFamily == /\ phase = "family"
                             /\ pos' = w /\ aux' = <<x>>
                       /\ UNCHANGED ty
                    \/ /\ fam' = "dup" /\ phase' = "end"
-                      /\ \E w \in DupWhat, d \in BOOLEAN : pos' = w /\ aux' = <<d>>
+                      /\ \E w \in DupWhat, d \in BOOLEAN : \E v \in DupVariants(w) : pos' = w /\ aux' = <<d, v>>
                       /\ UNCHANGED ty
 AddCtor == /\ phase = "grow" /\ Len(ty) < MaxDepth
            /\ \E c \in Ctors : ty' = Append(ty, c)
